@@ -1,0 +1,27 @@
+//go:build verif
+
+// Read-only accessor for the verification harness (/verif). Only compiled with
+// the `verif` build tag.
+
+package cpu
+
+import (
+	"sort"
+
+	"github.com/containers/nri-plugins/pkg/resmgr/cache"
+)
+
+// VerifClassAssignments returns the cached CPU class assignments (class name -> sorted CPU ids).
+func VerifClassAssignments(c cache.Cache) map[string][]int {
+	out := map[string][]int{}
+	a := &cpuClassAssignments{}
+	if !c.GetPolicyEntry(cacheKeyCPUAssignments, a) {
+		return out
+	}
+	for class, ids := range *a {
+		cpus := append([]int{}, ids.Members()...)
+		sort.Ints(cpus)
+		out[class] = cpus
+	}
+	return out
+}
